@@ -140,7 +140,7 @@ def judge(ctx, ws, insts, lo, hi, lo_s, hi_s, text=None):
 
 def run_shard(ctx):
     ws = real.Workspace()
-    n = ctx.share(1500, 40000)
+    n = ctx.share(3000, 200000)
     for _ in range(n):
         insts, lo, hi = gen(ctx.rng)
         judge(ctx, ws, insts, lo, hi, spell(ctx.rng, lo), spell(ctx.rng, hi))
